@@ -5,7 +5,9 @@ as one protocol line for the Lean driver (Drv/TsProps.lean).
 A *case* is
     dict(apps=[app ids constructed by the main thread before the workers start, in order],
          threads={tid: [item, ...]},           item = ('serve', req) | ('construct', app_id)
-         switches=[(step, next_tid), ...])     preemption points for harness/sched.py
+         switches=[(step, next_tid), ...],     preemption points for harness/sched.py
+         cfg={app_id: dict(debug=bool, custom=[status codes with an @app.error handler],
+                           before=[op, ...], after=[op, ...])})   application configuration
 a *request* is
     dict(app=app id, rid=route id, method, qs, cookie, hdrs={name: value}, body=str, ctype=str|None,
          kind='handler'|'notfound'|'notallowed'|'badpath', ops=[op, ...], out=outcome)
@@ -17,6 +19,10 @@ Application id 0 is the module level default application (`ombott.Globals.app`).
 import ast
 import html
 import io
+import json
+import os
+import pickle
+import select
 import re
 import threading
 import urllib.parse
@@ -67,11 +73,18 @@ def show(v):
     return 's<' + type(v).__name__ + '>'
 
 
-_PAGE = re.compile(r'<title>Error: (.*?)</title>.*?<tt>(.*?)</tt>.*?<pre>(.*?)</pre>', re.S)
+_PAGE = re.compile(r'<title>Error: (.*?)</title>.*?<tt>(.*?)</tt>.*?<pre>(.*?)</pre>.*?<pre>(.*?)</pre>.*?<pre>(.*?)</pre>',
+                   re.S)
+FORBIDDEN = '-] Forbidden [-'
+
+
+def canon_tb(tb):
+    return '~' if tb in (None, 'None') else '<tb>'
 
 
 def canon_body(body):
-    """an error page becomes the triple the model uses; anything else is the text itself"""
+    """an error page becomes the tuple the model uses (E: HTML, D: HTML with debug, J: JSON);
+    anything else is the text itself"""
     text = body.decode('utf8', 'replace')
     if text.startswith('<!doctype html>'):
         m = _PAGE.search(text)
@@ -80,13 +93,24 @@ def canon_body(body):
                 url = html.unescape(ast.literal_eval(m.group(2)))
             except (ValueError, SyntaxError):
                 url = m.group(2)
-            return 'E(%s|%s|%s)' % (html.unescape(m.group(1)), url, html.unescape(m.group(3)))
+            st, txt = html.unescape(m.group(1)), html.unescape(m.group(3))
+            exc, tb = html.unescape(m.group(4)), html.unescape(m.group(5))
+            if exc == FORBIDDEN and tb == FORBIDDEN:
+                return 'E(%s|%s|%s)' % (st, url, txt)
+            return 'D(%s|%s|%s|%s|%s)' % (st, url, txt, exc, canon_tb(tb))
+    if text.startswith('{"body": '):
+        try:
+            d = json.loads(text)
+            if set(d) == {'body', 'exception', 'traceback'}:
+                return 'J(%s|%s|%s)' % (d['body'], d['exception'], canon_tb(d['traceback']))
+        except ValueError:
+            pass
     return text
 
 
 def render_resp(status, headers, body):
     canon = canon_body(body)
-    if canon.startswith('E(') and not body.startswith(b'E('):
+    if canon[:2] in ('E(', 'D(', 'J(') and body[:2] not in (b'E(', b'D(', b'J('):
         # the length of a page is reported as the length of its canonical form
         headers = [(k, str(len(canon.encode('utf8'))) if k == 'Content-Length' and v == str(len(body)) else v)
                    for k, v in headers]
@@ -192,7 +216,7 @@ def enc_dict(d):
     return '&'.join('%s:%s' % (hs(k), 'n' if v is None else 's' + hs(v)) for k, v in d.items())
 
 
-def enc_op(op):
+def enc_op(op, cfgs=None):
     k = op[0]
     if k in ('path', 'method', 'body', 'url', 'rdstatus', 'copy'):
         return [k]
@@ -210,8 +234,10 @@ def enc_op(op):
         return [k, str(op[1])]
     if k == 'cset':
         return [k, str(op[1]), hs(op[2]), hs(op[3])]
+    if k == 'cheader':
+        return [k, str(op[1]), hs(op[2]), hs('HTTP_' + op[2].upper().replace('-', '_'))]
     if k == 'nested':
-        return [k] + enc_req(op[1])
+        return [k] + enc_req(op[1], cfgs)
     if k == 'construct':
         return [k, str(op[1])]
     raise ValueError(op)
@@ -230,17 +256,33 @@ def enc_out(out):
     if k == 'error':
         return ['error', str(out[1]), hs(status_line(out[1])), hs(out[2])]
     if k == 'crash':
-        return ['crash', hs(status_line(500))]
+        return ['crash', hs(status_line(500)), hs(CRASH_REPR)]
+    if k == 'failjson':
+        return ['failjson', hs('BodyParsingError')]
+    if k == 'failform':
+        return ['failform', hs('BodySizeError')]
     raise ValueError(out)
 
 
-def enc_req(req):
-    toks = ['R', str(req['app']), enc_dict(model_env(req))]
+CRASH_REPR = "ZeroDivisionError('integer division or modulo by zero')"
+NO_CFG = dict(debug=False, custom=[], before=[], after=[])
+MEMFILE_MAX = 32          # max_memfile_size of every application the harness configures
+
+
+def enc_req(req, cfgs=None):
+    cfg = dict(NO_CFG, **((cfgs or {}).get(req['app']) or {}))
+    toks = ['R', str(req['app']), enc_dict(model_env(req)), '1' if cfg['debug'] else '0',
+            ','.join(str(c) for c in cfg['custom']) or '-', 'B']
+    for op in cfg['before']:
+        toks += enc_op(op, cfgs)
+    toks.append('A')
+    for op in cfg['after']:
+        toks += enc_op(op, cfgs)
     kind = req['kind']
     if kind == 'handler':
         toks.append('H')
         for op in req['ops']:
-            toks += enc_op(op)
+            toks += enc_op(op, cfgs)
         toks += enc_out(req['out'])
     elif kind == 'notfound':
         toks += ['NF', hs(status_line(404)), hs('Not Found')]
@@ -253,11 +295,11 @@ def enc_req(req):
     return toks
 
 
-def enc_items(items):
+def enc_items(items, cfgs=None):
     toks = []
     for it in items:
         if it[0] == 'serve':
-            toks += ['serve'] + enc_req(it[1])
+            toks += ['serve'] + enc_req(it[1], cfgs)
         else:
             toks += ['construct', str(it[1])]
     return toks
@@ -271,7 +313,7 @@ def case_line(case, events, variant='fixed', op='run', multi=None):
     toks = ['tsprops', op, variant, '1' if multi else '0']
     toks += ['T', '0'] + enc_items([('construct', a) for a in case.get('apps', [])])
     for tid in sorted(case['threads']):
-        toks += ['T', str(tid)] + enc_items(case['threads'][tid])
+        toks += ['T', str(tid)] + enc_items(case['threads'][tid], case.get('cfg'))
     toks += ['EV', ','.join(['1000'] + [str(t) for t in events])]
     return ' '.join(toks)
 
@@ -307,13 +349,26 @@ class World:
     # -- applications ---------------------------------------------------------------
     def construct(self, app_id):
         m = self.m
+        cfg = dict(NO_CFG, **((self.case.get('cfg') or {}).get(app_id) or {}))
+        conf = {'max_memfile_size': MEMFILE_MAX, 'debug': bool(cfg['debug'])}
         if app_id == 0:
             app = m['Globals'].app
-            app.router = m['RadiRouter']()        # configuration time: a clean route table per case
+            # configuration time: a clean route table, error handlers, hooks and config per case
+            app.router = m['RadiRouter']()
+            app.error_handlers = {'404-hooks': {}}
+            app.__dict__.pop('_hooks', None)
+            app.setup(conf)
         else:
-            app = m['Ombott']()
+            app = m['Ombott'](conf)
         self.apps[app_id] = app
         self.reg.add_app(app_id, app)
+        world = self
+        for code in cfg['custom']:
+            app.error(code)(lambda res, _a=app_id: h_error(world, _a, res))
+        if cfg['before']:
+            app.add_hook('before_request', lambda _a=app_id, _ops=cfg['before']: h_hook(world, _a, _ops))
+        if cfg['after']:
+            app.add_hook('after_request', lambda _a=app_id, _ops=cfg['after']: h_hook(world, _a, _ops))
         seen = set()
         for r in self.reqs:
             if r['app'] != app_id or r['rid'] in seen:
@@ -361,7 +416,7 @@ class World:
         if tids != list(range(1, len(tids) + 1)):
             raise ValueError('thread ids must be 1..n')
         workers = [(lambda me, items=case['threads'][t]: self.run_items(me, items)) for t in tids]
-        r = sched.Run(workers, case.get('switches', ()), repo=repo, handler_codes=[h_script.__code__],
+        r = sched.Run(workers, case.get('switches', ()), repo=repo, handler_codes=[h_script.__code__, run_ops.__code__, h_error.__code__, h_hook.__code__],
                       registry=self.reg, timeout=timeout, label_only=label_only)
         r.run()
         self.sched = r
@@ -374,18 +429,19 @@ class World:
         return answer(self.obs, sorted(self.case['threads']))
 
 
-def h_script(world, app_id, req):
-    """interprets the handler script of `req` against `app.request` / `app.response`"""
-    m = world.m
+def app_objects(world, app_id):
     app = world.apps[app_id]
     if app_id == 0:
         import ombott
-        rq, rs = ombott.request, ombott.response       # the module level aliases of the default app
-    else:
-        rq, rs = app.request, app.response
+        return ombott.request, ombott.response      # the module level aliases of the default app
+    return app.request, app.response
+
+
+def run_ops(world, app_id, ops, copies):
+    """interprets handler / hook statements against `app.request` / `app.response`"""
+    rq, rs = app_objects(world, app_id)
     obs = world.tl.obs
-    copies = []
-    for op in req['ops']:
+    for op in ops:
         k = op[0]
         if k == 'path':
             obs.append((app_id, 'r:' + show(rq.path)))
@@ -424,15 +480,24 @@ def h_script(world, app_id, req):
             world.reg.add_copy(app_id, cp)
             copies.append(cp)
         elif k == 'cpath':
-            obs.append((app_id, 'r:' + show(copies[op[1]].path)))
+            obs.append((app_id, 'c:' + show(copies[op[1]].path)))
         elif k == 'cset':
             copies[op[1]][op[2]] = op[3]
+        elif k == 'cheader':
+            obs.append((app_id, 'c:' + show(copies[op[1]].headers.get(op[2]))))
         elif k == 'nested':
             world.serve(op[1])
         elif k == 'construct':
             world.construct(op[1])
         else:
             raise ValueError(op)
+
+
+def h_script(world, app_id, req):
+    """the handler of `req`: its statements, then its outcome"""
+    m = world.m
+    rq, rs = app_objects(world, app_id)
+    run_ops(world, app_id, req['ops'], [])
     out = req['out']
     k = out[0]
     if k == 'ret':
@@ -447,7 +512,81 @@ def h_script(world, app_id, req):
         raise m['HTTPError'](out[1], out[2])
     if k == 'crash':
         return 1 // 0
+    if k == 'failjson':
+        return str(rq.json)
+    if k == 'failform':
+        return str(rq.forms.get('f'))
     raise ValueError(out)
+
+
+def h_hook(world, app_id, ops):
+    """a before_request / after_request hook"""
+    run_ops(world, app_id, ops, [])
+
+
+def h_error(world, app_id, res):
+    """the @app.error(code) handler: looks at app.response and at the error it was given
+    (mirror of customErrorHandler in Model/WsgiConc.lean)"""
+    rq, rs = app_objects(world, app_id)
+    obs = world.tl.obs
+    obs.append((app_id, 'r:' + show(rs.status)))
+    obs.append((app_id, 'r:' + show(rs.headers.get('Content-Type'))))
+    obs.append((app_id, 'r:' + show(rs.headers.get('X-Own'))))
+    return 'custom:' + str(res.body)
+
+
+class ChildFailed(Exception):
+    pass
+
+
+def pristine(fn, timeout=60.0):
+    """fn() computed in a forked child: whatever it does to module level state (the shared error
+    objects of errors_map, template caches, the default application) does not reach this process, and
+    the child starts from this process' state as it is now"""
+    r, w = os.pipe()
+    pid = os.fork()
+    if pid == 0:
+        code = 0
+        try:
+            os.close(r)
+            try:
+                data = pickle.dumps(('ok', fn()))
+            except sched.SchedTimeout as e:
+                data = pickle.dumps(('timeout', str(e)))
+            except BaseException as e:      # noqa
+                data = pickle.dumps(('err', '%s: %s' % (type(e).__name__, e)))
+            with os.fdopen(w, 'wb') as f:
+                f.write(data)
+        except BaseException:               # noqa
+            code = 1
+        finally:
+            os._exit(code)
+    os.close(w)
+    chunks = []
+    try:
+        with os.fdopen(r, 'rb') as f:
+            while True:
+                ready, _, _ = select.select([f], [], [], timeout)
+                if not ready:
+                    os.kill(pid, 9)
+                    raise sched.SchedTimeout('forked reference run did not answer in %ss' % timeout)
+                c = f.read1(1 << 20) if hasattr(f, 'read1') else f.read()
+                if not c:
+                    break
+                chunks.append(c)
+    finally:
+        try:
+            os.waitpid(pid, 0)
+        except ChildProcessError:
+            pass
+    if not chunks:
+        raise ChildFailed('forked reference run died')
+    kind, val = pickle.loads(b''.join(chunks))
+    if kind == 'timeout':
+        raise sched.SchedTimeout(val)
+    if kind != 'ok':
+        raise ChildFailed(val)
+    return val
 
 
 def run_case(case, repo=None, timeout=20.0, label_only=False):
